@@ -248,6 +248,11 @@ func main() {
 			audit = runAudit(id, c, seed)
 			fmt.Printf("%s sensitivity audit: %d mutants of %d anchored functions, %d invalid (do not type-check), %d killed, %d survived (%.0fs)\n",
 				id, audit.Generated, audit.Functions, audit.Invalid, audit.Killed, audit.Survived, audit.Seconds)
+			fmt.Printf("%s robustness audit: %d behaviour-preserving rewrites of the same functions, %d invalid, %d reported by the check (each one would be a false alarm)\n",
+				id, audit.EquivGenerated, audit.EquivInvalid, audit.EquivFlagged)
+			for _, sm := range audit.EquivSamples {
+				fmt.Printf("  FALSE-ALARM-CANDIDATE %s\n", sm)
+			}
 		}
 		if !*flagNoEv {
 			writeEvidence(root, id, tier, seed, pr, c, stats, loadDur+time.Since(t1), len(fails), "", audit)
